@@ -76,7 +76,7 @@ def generate(rng, tier, index):
     if boundary:
         # the 12-byte marker window (6 bytes before / 6 bytes after the end of the masked configuration) lies across or next
         # to a multiple of 4096 / 8192: block-wise scanners have to carry it over
-        at = max(0, rng.choice([8192, 8192, 12288, 16384]) - 6138 + rng.randint(-14, 8))
+        at = max(0, rng.choice([8192, 8192, 12288, 16384, 65536, 65536, 131072]) - 6138 + rng.randint(-14, 8))
     plan = {"container": container, "size": at + rng.choice([0, 0, 50, 700]), "filler": {"kind": "random", "seed": rng.getrandbits(24)},
             "guards": [{"at": at, "settings": settings, "env_key": hx(key), "guard": guard, "checksum_delta": 0,
                         # the checksum option is usually last; it may sit anywhere after the first guard option
